@@ -122,7 +122,23 @@ class BundleInstance:
         """# Right multiplication. Creates `num` copies of ourselves."""
         if not isinstance(num, int):
             return NotImplemented
-        return [copy(self) for _ in range(num)]
+        return [self._copy() for _ in range(num)]
+
+    def _copy(self) -> "BundleInstance":
+        """A copy with our declared attributes, and connection-tracking state of its own.
+        (A shallow `copy` shares the sets of connected ports and handed-out references with the original.)"""
+        new = BundleInstance(
+            name=self.name,
+            of=self.of,
+            port=self.port,
+            flipped=self.flipped,
+            role=self.role,
+            src=self.src,
+            dest=self.dest,
+            desc=self.desc,
+        )
+        new.props = copy(self.props)
+        return new
 
 
 # Type-alias for HDL objects storable as `Module` attributes
@@ -563,7 +579,7 @@ def flippable(b: Bundle) -> bool:
 
 def flipped(bi: BundleInstance) -> BundleInstance:
     """# Create a flipped copy of a BundleInstance"""
-    cp = copy(bi)
+    cp = bi._copy()
     cp.flipped = not cp.flipped
     return cp
 
